@@ -110,6 +110,55 @@ pub async fn run(out_path: &str) -> eyre::Result<()> {
         let got = has_key(&send, key).await;
         cases.push(json!({"kind": "sync", "client_cluster": sc, "server_cluster": rc, "outcome": outcome, "data_transferred": got}));
     }
+    // (4) the sending side: a node whose cluster id changes while it runs must stop addressing (and stamping for) the
+    // cluster it left.  The sender knows one member of cluster 0 and one of cluster 1; its own writes are broadcast.
+    {
+        let (r0, _b0, _t0, _h0) = klukai_agent::agent::start_with_config(mk("clM0")?, tw.clone()).await?;
+        let (r1, _b1, _t1, _h1) = klukai_agent::agent::start_with_config(mk("clM1")?, tw.clone()).await?;
+        let (snd, _sb, _st, _sh) = klukai_agent::agent::start_with_config(mk("clSend")?, tw.clone()).await?;
+        for a in [&r0, &r1, &snd] {
+            let (st, _) = klukai_agent::api::public::api_v1_db_schema(axum::Extension(a.clone()), axum::Json(vec![SCHEMA.to_string()])).await;
+            if st != http::StatusCode::OK {
+                eyre::bail!("schema");
+            }
+        }
+        r0.set_cluster_id(ClusterId(0));
+        r1.set_cluster_id(ClusterId(1));
+        snd.set_cluster_id(ClusterId(0));
+        {
+            let ts = ts_now(&snd);
+            let mut m = snd.members().write();
+            m.add_member(&klukai_types::actor::Actor::new(r0.actor_id(), r0.gossip_addr(), ts, ClusterId(0)));
+            m.add_member(&klukai_types::actor::Actor::new(r1.actor_id(), r1.gossip_addr(), ts, ClusterId(1)));
+        }
+        let write = |agent: klukai_types::agent::Agent, k: i64| async move {
+            let _ = klukai_agent::api::public::api_v1_transactions(
+                axum::Extension(agent),
+                axum::extract::Query(klukai_agent::api::public::TimeoutParams { timeout: None }),
+                axum::Json(vec![klukai_types::api::Statement::WithParams("INSERT INTO tests (id, text) VALUES (?, 'bcast')".into(), vec![klukai_types::api::SqliteParam::Integer(k)])]),
+            )
+            .await;
+        };
+        for (phase, sender_cluster, k) in [("before", 0u16, 501i64), ("after", 1u16, 502i64)] {
+            snd.set_cluster_id(ClusterId(sender_cluster));
+            write(snd.clone(), k).await;
+            // broadcasts are retransmitted a few times within the first seconds
+            let mut got0 = false;
+            let mut got1 = false;
+            for _ in 0..6 {
+                got0 = got0 || has_key(&r0, k).await;
+                got1 = got1 || has_key(&r1, k).await;
+                if got0 || got1 {
+                    // give the other one a moment too
+                    sleep_ms(1200).await;
+                    got0 = got0 || has_key(&r0, k).await;
+                    got1 = got1 || has_key(&r1, k).await;
+                    break;
+                }
+            }
+            cases.push(json!({"kind": "send", "phase": phase, "sender_cluster": sender_cluster, "member_cluster0_got": got0, "member_cluster1_got": got1}));
+        }
+    }
     let mut f = std::io::BufWriter::new(std::fs::File::create(out_path)?);
     writeln!(f, "{}", json!({"cases": cases}))?;
     f.flush()?;
